@@ -11,6 +11,7 @@ from gram import random_grammar, random_sentence, mutate, all_strings, earley_pr
 LEVEL = "proof"
 PROP_MODULE = "Rustemo.Props.C12"
 GLR_MODULE = "Rustemo.Props.C12Glr"
+BYTES_MODULE = "Rustemo.Props.C03Bytes"
 FOREIGN = "x"   # a character that is no terminal of the generated grammars (and not whitespace)
 
 
@@ -143,6 +144,7 @@ def run(rep, tier, seed):
     rng = random.Random(seed)
     proofs_ok = lean_obligations(rep, PROP_MODULE)
     proofs_ok = lean_obligations(rep, GLR_MODULE) and proofs_ok
+    proofs_ok = lean_obligations(rep, BYTES_MODULE) and proofs_ok
     ok, log = build_harness()
     if not ok:
         rep.oblige("cargo build harness/dyn against /repo", False, log[-1500:])
@@ -161,6 +163,8 @@ def run(rep, tier, seed):
     lf.run_cases(lr, extra_requests=extra_requests)
     lf.add_histories(rng, glr)
     # hypotheses of the GLR-half theorems (Props/C12Glr.lean) on the real right-nulled table
+    for c in glr:
+        c.want_lexdet = True
     lf.run_cases(glr, parse_model=False, extra_requests=lambda c: ["glr cert", "cert viable"])
     # GLR counting solutions of a highly ambiguous input can exceed the 3 s watchdog without hanging
     rep.counters["glr_timeouts_that_were_only_slow"] = lf.confirm_timeouts(glr)
@@ -248,6 +252,12 @@ def check(rep, lr, glr, proofs_ok):
         rep.count("certC12glr(Cert.glr+completeRN+viable)" + ("_layout" if lay else "") + ("_pass" if ok else "_FAIL"))
         if not ok and not lay:
             glr_cert_fail.append(c)
+    for c in glr:
+        for k, a in (getattr(c, "lexdet", None) or {}).items():
+            # inputs on which the byte-level GLR theorems (Props/C03Bytes.lean) apply with executable hypotheses only
+            rep.count("lexdet_discharged:" + ("yes" if (" bytes=1" in a or " ws=1" in a) and "singlechar=1" in a else
+                                              "no(layout rule)" if c.gram is not None and c.gram.layout is not None else
+                                              "no(" + a[:60] + ")"))
     f_glr, _ = lf.evaluate(rep, glr, oracle, True, GLR_MODULE, compare_model=False)
     if glr_cert_fail and not f_glr and not rep.violations:
         c = min(glr_cert_fail, key=lambda c: len(c.text))
